@@ -199,3 +199,32 @@ def own_output(ctx, report, sn, clause="3"):
                      {"caption_sets": len(sets), "mismatches": not_first[:3]}, clause)
         report.check(not unreadable, "R-READS-OWN", rfn, f"{rname} reads {wname}'s output (no error, no cue of the first "
                      "language lost)", {"caption_sets": len(sets), "mismatches": unreadable[:3]}, clause)
+
+
+def writer_documents(ctx):
+    """{writer class name: [documents]} written by the FOLDED writers from two small caption sets (one cue; two cues in
+    two languages), and {writer: the write method} for reporting"""
+    from . import markup_writer_fold as MW
+    W = MW.World(ctx)
+    S = 1000000
+    specs = [{"langs": {"en-US": [(S, 2 * S, ["hello"], None, None)]}},
+             {"langs": {"en-US": [(S, 2 * S, ["one", None, "two"], None, None), (5 * S, 6 * S, ["bye"], None, None)]}}]
+    sites = {"DFXPWriter": "pycaption/dfxp/base.py", "LegacyDFXPWriter": "pycaption/dfxp/extras.py",
+             "SinglePositioningDFXPWriter": "pycaption/dfxp/extras.py", "SAMIWriter": "pycaption/sami.py",
+             "WebVTTWriter": "pycaption/webvtt.py", "SRTWriter": "pycaption/srt.py", "MicroDVDWriter": "pycaption/microdvd.py",
+             "SCCWriter": "pycaption/scc/__init__.py"}
+    docs, where = {}, {}
+    for wname, path in sites.items():
+        docs[wname] = []
+        for spec in specs:
+            try:
+                fn, doc, _ = W.write(path, wname, W.caption_set(spec))
+            except FoldRaise as e:
+                raise AnalysisError(f"{wname}.write raises on a plain caption set: {e.exc_name}")
+            except AnalysisError as e:
+                raise AnalysisError(f"{wname}.write cannot be folded on a plain caption set: {e}")
+            if not isinstance(doc, str):
+                raise AnalysisError(f"{wname}.write: folded result is not a string")
+            docs[wname].append(doc)
+            where[wname] = fn
+    return docs, where
